@@ -294,6 +294,9 @@ def case_factory(ctx, c, classes):
     tr = numpy.array(["y%d" % i for i in range(t)], dtype=object)
     bv = DenseBreedingValueMatrix.from_numpy(raw, taxa=pg.taxa, taxa_grp=pg.taxa_grp, trait=tr)
     u = g.normal(size=(m, t)); u[int(g.integers(m))] = 0.0
+    if t > 1:      # sparse architecture: a marker that is neutral for one trait only (exact zero cell, not a zero row)
+        for _ in range(int(g.integers(1, 4))):
+            u[int(g.integers(m)), int(g.integers(t))] = 0.0
     beta = g.normal(size=(1, t))
     mod = DenseAdditiveLinearGenomicModel(beta=beta, u_misc=None, u_a=u, trait=tr)
     un = DenseGenotypeMatrix(pg.mat.sum(0).astype("int8"), taxa=pg.taxa, taxa_grp=pg.taxa_grp, vrnt_chrgrp=pg.vrnt_chrgrp, vrnt_phypos=pg.vrnt_phypos, ploidy=2)
